@@ -294,9 +294,81 @@ fn all_permutations(n: usize) -> Vec<Vec<usize>> {
   out
 }
 
+/// PARTIAL TAG COLLISIONS: measurements whose 32-byte tags agree on their first (or last) four bytes,
+/// found by a birthday search, reported in interleaved order - a bucketing that keys, sorts or
+/// hashes on part of the tag splits or merges exactly these groups
+fn c18_partial_tag_collisions(g: &mut Sm, q: bool) {
+  use std::collections::HashMap;
+  let t = 3u32;
+  let epoch = "t";
+  let tag_of = |m: &[u8]| -> [u8; 32] {
+    let mg = MessageGenerator::new(SingleMeasurement::new(m), t, epoch.as_bytes());
+    let mut rnd = [0u8; 32];
+    mg.sample_local_randomness(&mut rnd);
+    let mut tag = [0u8; 32];
+    sta_rs::strobe_digest(&rnd, &[&[2u8]], "star_derive_randoms", &mut tag);
+    tag
+  };
+  let n = if q { 200_000u32 } else { 600_000 };
+  let base = g.next();
+  for (what, take) in [("first four bytes", 0usize), ("last four bytes", 28usize)] {
+    let mut seen: HashMap<[u8; 4], u32> = HashMap::new();
+    let mut pairs: Vec<(Vec<u8>, Vec<u8>)> = Vec::new();
+    for i in 0..n {
+      let m = format!("pc-{}-{}", base, i).into_bytes();
+      let tg = tag_of(&m);
+      let key: [u8; 4] = tg[take..take + 4].try_into().unwrap();
+      if let Some(j) = seen.insert(key, i) {
+        pairs.push((format!("pc-{}-{}", base, j).into_bytes(), m));
+        if pairs.len() >= 3 {
+          break;
+        }
+      }
+    }
+    stat_n(&format!("oracle.C18.partial_tag_collisions.{}", if take == 0 { "prefix" } else { "suffix" }), pairs.len() as u64);
+    for (a, b) in pairs {
+      // t + 1 reports each, interleaved A B A B ..., then grouped, on pools of 1 and 4 threads
+      let mut inter: Vec<(Vec<u8>, Option<Vec<u8>>)> = Vec::new();
+      for k in 0..(t + 1) {
+        inter.push((a.clone(), Some(vec![k as u8; 3])));
+        inter.push((b.clone(), if k % 2 == 0 { None } else { Some(vec![0x80 | k as u8; 2]) }));
+      }
+      let mut grouped = inter.clone();
+      grouped.sort_by(|x, y| x.0.cmp(&y.0));
+      for (order_name, clients) in [("interleaved", &inter), ("grouped", &grouped)] {
+        let msgs: Vec<Message> = clients.iter().map(|(m, aux)| make_client(m, epoch.as_bytes(), t, aux.clone(), None).msg).collect();
+        let mut want: Bag = BTreeMap::new();
+        for (m, aux) in clients.iter() {
+          want.entry(m.clone()).or_insert_with(|| vec![vec![]])[0].push(aux.clone());
+        }
+        for v in want.values_mut() {
+          v[0].sort();
+        }
+        for threads in [1usize, 4] {
+          let d = |got: &str| {
+            vec![("what", format!("two measurements whose tags agree on their {}, reports {}", what, order_name)), ("measurement_1", hex(&a)), ("measurement_2", hex(&b)), ("threshold", t.to_string()), ("epoch", epoch.to_string()), ("threads", threads.to_string()), ("expected", show_bag(&want)), ("got", got.to_string())]
+          };
+          match run_server(t, epoch, &msgs, threads) {
+            None => fail("server_panicked", &d("")),
+            Some(outs) => {
+              let got = bag(&outs);
+              if got != want {
+                let kind = if got.values().any(|v| v.len() > 1) { "measurement_output_twice" } else if want.keys().any(|k| !got.contains_key(k)) { "measurement_missing" } else { "wrong_associated_data" };
+                fail(kind, &d(&show_bag(&got)));
+              }
+            }
+          }
+          case(true);
+        }
+      }
+    }
+  }
+}
+
 pub fn c18(tier: &str, seed: u64) {
   let mut g = Sm::new(seed, "oracle.C18");
   let q = quick(tier);
+  c18_partial_tag_collisions(&mut g, q);
   let n = if q { 500 } else { 4000 };
   for case_i in 0..n {
     let t = match case_i % 6 {
